@@ -5,6 +5,7 @@ package main
 import (
 	"fmt"
 	"sort"
+	"strings"
 )
 
 const (
@@ -422,7 +423,10 @@ func fFanKind(kind int, harness string, conc func(i int) int, symSpec int, shape
 var kindFanShapes = []fanShape{{m: 5}, {m: 17}, {m: 3, from: 5}, {m: 12, from: 17}, {m: 49}, {m: 37, from: 49}}
 
 // fanKinds: the non byte-string kinds with their concrete key generators.
-func fanKinds(c *CheckRun, mask int, full bool) []*Scenario {
+func fanKinds(c *CheckRun, mask int, full bool) []*Scenario { return fanKindsOpt(c, mask, full, false) }
+
+// cheapOnly drops the big bases that carry a symbolic update (for checks whose own probes are heavy).
+func fanKindsOpt(c *CheckRun, mask int, full bool, cheapOnly bool) []*Scenario {
 	shapes := kindFanShapes
 	if !full {
 		shapes = kindFanShapes[:5]
@@ -430,6 +434,9 @@ func fanKinds(c *CheckRun, mask int, full bool) []*Scenario {
 	var out []*Scenario
 	add := func(kind int, harness string, conc func(i int) int, sym int) {
 		for _, s := range fFanKind(kind, harness, conc, sym, shapes) {
+			if cheapOnly && strings.Contains(s.Label, " C/") {
+				continue
+			}
 			s.Params[1] = mask
 			if mask&ckMap == 0 {
 				// drop the probe list (params: ... nOps ops nProbe probes)
